@@ -470,6 +470,31 @@ func runC05(h *Harness) {
 			h.Violation("C05.unauthentic-cached", "shadows-authentic:"+sigClass+":"+v3, "after a non-authentic answer (%s) and an outage, the issuer's authentic 'revoked' answer was not honoured: handshake returned %s (strict=%v)", desc, v3, strict)
 		}
 	}
+	// one OCSP front end for two CAs that share a name: a certificate of the sibling CA with the SAME serial is checked
+	// while the query for the first certificate is still in flight at the same URL. The answer signed by the other CA is
+	// not an answer for it, whatever the validator shares between queries in flight.
+	if len(h.R.Violations) == 0 && h.Idx%4 == 3 {
+		const shared = "http://ocsp-frontend.sim/"
+		ra := w.NewResponder("http://unused-a.sim/", w.A)
+		rs := w.NewResponder("http://unused-s.sim/", w.Sib)
+		w.ShareURL(shared, ra, rs)
+		ra.Status, ra.Slow = rGood, 3*time.Second
+		rs.Status = rRevoked
+		s2 := big.NewInt(0x7a7a)
+		ca := w.A.Issue(EEOpts{Serial: s2, OCSP: []string{shared}, CDP: []string{}})
+		cs := w.Sib.Issue(EEOpts{Serial: s2, OCSP: []string{shared}, CDP: []string{}})
+		ha := h.StartHandshake(n, "frontend-a", w.ChainFor(ca, w.A))
+		h.S.Run(func(v schedView) bool { return ra.Hits > 0 || ha.Task.done }, h.S.Now()+time.Minute)
+		hb := h.StartHandshake(n, "frontend-sibling", w.ChainFor(cs, w.Sib))
+		h.Wait(ha.Task, hb.Task)
+		h.R.Checks += 2
+		if !isRevokedErr(hb.Err) {
+			h.Violation("C05.unauthentic-decides", "in-flight:sibling-issuer-same-serial:"+errStr(hb.Err), "a certificate of the sibling CA (its own answer: 'revoked') checked while the query for the same serial under the other CA was in flight at the same responder URL returned %s: the answer that decided was signed by the wrong CA", errStr(hb.Err))
+		}
+		if ha.Err != nil {
+			h.Violation("C05.authentic-ignored", "in-flight:first-query:"+errStr(ha.Err), "the slow, authentic 'good' answer for the first certificate ended in %s", errStr(ha.Err))
+		}
+	}
 	h.R.Sample = map[string]any{"case": desc, "strict": strict, "authentic": authentic, "hs1": v1, "hs2(responder down)": v2, "hs3(authentic revoked)": v3}
 	h.Cleanup(n)
 }
